@@ -11,7 +11,7 @@ M = [
  ("C04b-solution-order-branch-flipped", ["C04"], "base/src/ProblemDefinition.cpp", "    if (optimized_ && !b.optimized_)\n        return true;\n    if (!optimized_ && b.optimized_)\n        return false;", "    if (optimized_ && !b.optimized_)\n        return false;\n    if (!optimized_ && b.optimized_)\n        return true;"),
  ("C05a-validator-loop-starts-at-2", ["C05"], "base/src/DiscreteMotionValidator.cpp", "        for (int j = 1; j < nd; ++j)", "        for (int j = 2; j < nd; ++j)"),
  ("C06c-compound-distance-ignores-weights", ["C06"], "base/src/StateSpace.cpp", "dist += weights_[i] * components_[i]->distance(cstate1->components[i], cstate2->components[i]);", "dist += components_[i]->distance(cstate1->components[i], cstate2->components[i]);"),
- ("C07a-so2-interpolate-no-rewrap", ["C07"], "base/spaces/src/SO2StateSpace.cpp", "        if (v > boost::math::constants::pi<double>())\n            v -= 2.0 * boost::math::constants::pi<double>();", "        if (v > 10 * boost::math::constants::pi<double>())\n            v -= 2.0 * boost::math::constants::pi<double>();"),
+ ("C07a-so2-interpolate-no-rewrap", ["C07"], "base/spaces/src/SO2StateSpace.cpp", "        if (v > pi)\n            v -= 2.0 * pi;\n        else if (v < -pi)\n            v += 2.0 * pi;", "        if (v > pi)\n            v -= 2.0 * pi;"),
  ("C08b-realvector-gaussian-no-clamp", ["C08"], "base/spaces/src/RealVectorStateSpace.cpp", "        if (v < bounds.low[i])\n            v = bounds.low[i];\n        else if (v > bounds.high[i])\n            v = bounds.high[i];", "        if (v < bounds.low[i])\n            v = bounds.low[i];"),
  ("C09b-storeEdges-drops-weight", ["C09"], "base/PlannerDataStorage.h", "edgeData.weight_ = weight.value();", "edgeData.weight_ = 1.0;"),
  ("C10a-gnat-nearestK-pruning", ["C10"], "datastructures/NearestNeighborsGNAT.h", "if (nbhQueue.size() == k && (nodeDist.second > nodeDist.first->maxRadius_ + dist ||", "if (nbhQueue.size() == k && (nodeDist.second > nodeDist.first->maxRadius_ ||"),
